@@ -20,6 +20,8 @@ PoolText == <<
   "#{:a}", "#{\"a\"}", "(set [:a])", "(hash-set :a :b)", "#{:b :a}", "(conj #{:a} :b)", "#{:a :b :c}", "#{:a :c}",
   "(list nil)", "[nil]", "(list false)", "'(a)", "['a]", "[:a]", "[\"a\"]", "(list \"a\")", "[0]", "[\"\"]", "[()]", "[[]]",
   \* integers that differ only below the precision of a 64-bit float (2^53 + 1, 2^53; two timestamps 1 ns apart)
+  \* EMPTY sequences the builtins hand out (some have no backing array at all)
+  "(rest ())", "(rest nil)", "(concat)", "(range 2 2)", "(vec (rest ()))", "[1 (rest ())]", "(list 1 [])", "{:a (range 2 2)}", "{:a ()}",
   \* strings built by str from one keyword / symbol / number / nil
   "(str :a)", "(str 'a)", "(str 1)", "(str nil)", "\":a\"",
   "9007199254740993", "9007199254740992", "170000000000000001", "170000000000000000", "[9007199254740993]",
